@@ -23,8 +23,12 @@ package tor
 //@ spec FilesEnds(t *Torrent) bool
 //@   body t.Files == nil || ((len(t.Files) > 0 ==> t.Files[0].Offset == 0) &&
 //@        t.Pieces.Length() == (len(t.Files) == 0 ? 0 : t.Files[len(t.Files)-1].Offset + t.Files[len(t.Files)-1].Length))
+// PGeom: the piece store's own geometry predicate (package piece).
+//@ spec PGeom(t *Torrent) bool
+//@   import "github.com/jech/storrent/tor/piece"
+//@   body piece.GeomP(&t.Pieces)
 //@ spec Geom(t *Torrent) bool
-//@   body GeomSizes(t) && GeomHashes(t) && FilesEach(t) && FilesChain(t) && FilesEnds(t)
+//@   body GeomSizes(t) && GeomHashes(t) && FilesEach(t) && FilesChain(t) && FilesEnds(t) && PGeom(t)
 
 //@ func (*Torrent).MetadataComplete
 //@   requires torrent != nil && torrent.Pieces.Length() <= 0
@@ -34,6 +38,7 @@ package tor
 //@   ensures  [nhashes] $r0 == nil ==> len(torrent.PieceHashes) == torrent.Pieces.Num()
 //@   ensures  [inflight] $r0 == nil ==> int64(len(torrent.inFlight)) == (torrent.Pieces.Length()+16383)/16384
 //@   ensures  [name]   $r0 == nil ==> torrent.Name != ""
+//@   ensures  [pgeom]  $r0 == nil ==> PGeom(torrent)
 //@   ensures  [hashes] $r0 == nil ==> GeomHashes(torrent)
 //@   ensures  [files]  $r0 == nil ==> FilesEach(torrent)
 //@   ensures  [chain]  $r0 == nil ==> FilesChain(torrent)
